@@ -1926,7 +1926,7 @@ def check_C14(ctx):
     def one(i):
         wd = os.path.join(ctx.work, f"c14-{i}")
         try:
-            return run_impl(bench.exe, scens[i].text(), "text", wd, env=envs[i], timeout=20)
+            return run_impl(bench.exe, scens[i].text(), "text", wd, env=envs[i], timeout=40)
         finally:
             shutil.rmtree(wd, ignore_errors=True)
     with ThreadPoolExecutor(max_workers=64) as pool:
@@ -1939,7 +1939,7 @@ def check_C14(ctx):
             if ndis <= 3: ctx.oblige("correspondence C14", False, f"{lab}: {ds[0]}")
         st = status_of(o)
         errs = []
-        if st == "timeout": errs.append("the test was not stopped (the run was still going after 20 s)")
+        if st == "timeout": errs.append("the test was not stopped (the run was still going after 40 s)")
         elif st in ("0", "exit0"): errs.append(f"the run's verdict is success (status {st}) although a test overran its limit")
         if s.mode == "fork" and st in ("0", "1"):
             e = oracle_C03(s, m, o, "text")
@@ -1962,7 +1962,7 @@ def check_C14(ctx):
     def one2(i):
         wd = os.path.join(ctx.work, f"c14v-{i}")
         try:
-            return run_impl(bench.exe, jobs[i][0].text(), "text", wd, env={"CGREEN_PER_TEST_TIMEOUT": jobs[i][1]}, timeout=20)
+            return run_impl(bench.exe, jobs[i][0].text(), "text", wd, env={"CGREEN_PER_TEST_TIMEOUT": jobs[i][1]}, timeout=40)
         finally:
             shutil.rmtree(wd, ignore_errors=True)
     with ThreadPoolExecutor(max_workers=NCPU) as pool:
@@ -2144,7 +2144,7 @@ def check_C11(ctx):
         inner = S(nm(), items=[t1])
         sc = Scen(S(nm(), items=[inner, t2]), mode="fork")
         cases_b.append((sc, "names"))
-    obs = bench.run_many([(sc.text(), r) for sc, _ in cases_b for r in XML_REPS], env=asan_env(), timeout=20)
+    obs = bench.run_many([(sc.text(), r) for sc, _ in cases_b for r in XML_REPS], env=asan_env(), timeout=40)
     all_msgs = {m_ for sc, kind in cases_b if kind == "messages" for _, t in sc.root.tests() for m_ in t.msgs}
     all_names = set()
     for sc, kind in cases_b:
@@ -2380,7 +2380,7 @@ def check_C19(ctx):
         env = {"LD_PRELOAD": shim, "FAULT_LOG": log}
         if fault: env["FAULT"] = fault
         try:
-            o = run_impl(bench.exe, sc.text(), rep, wd, env=env, timeout=15)
+            o = run_impl(bench.exe, sc.text(), rep, wd, env=env, timeout=30)
             try: o.faultlog = open(log).read().split("\n")
             except OSError: o.faultlog = []
             return o
@@ -2425,7 +2425,7 @@ def check_C19(ctx):
         case = f"# reporter: {rep}   LD_PRELOAD=harness/faultshim.so FAULT={call}:{k} harness/scenario_run <file> {rep} <outdir>\n" + (sc.text() if len(sc.text()) < 3000 else sc.text()[:600] + "\n# ... (" + lab + ")")
         what = None
         if o.timeout:
-            what = "the run does not terminate (still running after 15 s)"
+            what = "the run does not terminate (still running after 30 s)"
         elif st in ("0", "exit0"):
             what = f"the run reports success (status {st}) although a test fails"
         if what:
